@@ -2,7 +2,7 @@
 From Coq Require Import Permutation.
 From Boltons Require Import Lib.Prelude Model.C17_Model Spec.C17_Spec Check.C17_Check
   Proofs.C17_Dict Proofs.C17_OTO Proofs.C17_M2M Proofs.C17_FD Proofs.C17_RefineOTO
-  Proofs.C17_RefineM2M Proofs.C17_RefineFD Proofs.C17_Agree.
+  Proofs.C17_RefineM2M Proofs.C17_RefineFD Proofs.C17_Agree Proofs.C17_Table Gen.C17_Gen.
 
 (* OneToOne: after ANY history of instance creation (pairs, .unique, copies),
    []=, del, pop, popitem, clear, setdefault, update, |=, update-from-instance,
@@ -146,3 +146,11 @@ Example C17_agree_implies_holds_inhabited :
                  (HOp 0 true (OSet 1 5), (Ok VNone, [([(5,1)], [(1,5)], true)]))] in
   c17_wf c /\ c17_verdict c = (true, true, false).
 Proof. split; [repeat constructor; simpl; discriminate|vm_compute; reflexivity]. Qed.
+
+(* (T): over the table regenerated from the CURRENT source on this run - every
+   mutating method of dict is overridden in FrozenDict, raises TypeError when
+   called on one and leaves it unchanged, and these are exactly the operations
+   the model treats as raising. *)
+Theorem C17_frozen_mutator_table : fd_table_ok gen_fd_table = true.
+Proof. exact gen_fd_table_ok. Qed.
+Print Assumptions C17_frozen_mutator_table.
